@@ -621,13 +621,25 @@ def check_property(pid, tier, seed):
         if len(usable) < max(4, len(all_eps) // 2):
             raise Inconclusive('too few usable episodes: %r' % results)
         # ---- verdict pass 1
-        tp = os.path.join(scratch, 'obs.ndjson')
-        idx = obs.write_obs(usable, tp, vlib.NCPU)
-        nlines = idx[-1][1] if idx else 0
-        bad, r1 = tlc_obs_collect(scratch, tp, invs, 'p1')
-        mark('verdict pass 1 done (%d lines)' % nlines)
+        # (in chunks: TLC reads a whole trace file into memory)
+        CH = 6000
+        chunks = [usable[i:i + CH] for i in range(0, len(usable), CH)] or [[]]
+
+        def obs_chunk(kc):
+            k, ch = kc
+            tpk = os.path.join(scratch, 'obs-%d.ndjson' % k)
+            idxk = obs.write_obs(ch, tpk, vlib.NCPU)
+            badk, rk = tlc_obs_collect(scratch, tpk, invs, 'p1-%d' % k)
+            return badk, rk.get('distinct', 0), (idxk[-1][1] if idxk else 0)
+        bad, nlines, nstates = [], 0, 0
+        with ThreadPoolExecutor(3) as ex:
+            for badk, st, nl in ex.map(obs_chunk, list(enumerate(chunks))):
+                bad += badk
+                nstates += st
+                nlines += nl
+        mark('verdict pass 1 done (%d lines, %d TLC runs)' % (nlines, len(chunks)))
         cov['obs_lines'] = nlines
-        cov['obs_states'] = r1.get('distinct', 0)
+        cov['obs_states'] = nstates
         byep = {}
         for f, epid, line in bad:
             byep.setdefault(epid, set()).add(f)
